@@ -533,7 +533,11 @@ class Ref:
     def join(self, o, a):
         pred, sel = lam2(a['f2']), lam2(a['g2'])
         other = a['vs']
-        return (sel(x, y) for x in it(o) for y in other if pred(x, y))
+        if is_iterator(other):
+            # a lazy second collection is gone through once and remembered: every outer element
+            # sees all of it, and nothing of it is produced before a row needs it
+            other = Memo(other)
+        return (sel(x, y) for x in it(o) for y in it(other) if pred(x, y))
 
     def repeatTake(self, o, a):
         if is_iterator(o) or isinstance(o, (Ordering, View, DSet)):
@@ -1096,9 +1100,8 @@ class Ref:
 REF = Ref()
 
 
-def run_ref(data, ops, binder=None):
-    """data: runtime value (tuple / FD / frozenset / iterator); returns the finalised result.
-    binder: the op of `let(binder($)) -> ...` that rebinds `$` (memorize / defaultIfEmpty)"""
+def run_lazy(data, ops, binder=None):
+    """as run_ref, but the result is handed out as it is (a lazy iterator stays unconsumed)"""
     o = data
     if binder is not None:
         o = getattr(REF, binder['op'])(o, binder)
@@ -1106,7 +1109,13 @@ def run_ref(data, ops, binder=None):
     for op in ops:
         name = op['op']
         o = getattr(REF, 'in_' if name == 'in' else name)(o, op)
-    return finalise(o)
+    return o
+
+
+def run_ref(data, ops, binder=None):
+    """data: runtime value (tuple / FD / frozenset / iterator); returns the finalised result.
+    binder: the op of `let(binder($)) -> ...` that rebinds `$` (memorize / defaultIfEmpty)"""
+    return finalise(run_lazy(data, ops, binder))
 
 
 def finalise(o):
@@ -1350,8 +1359,8 @@ def render_op(r, a):
     raise ValueError(n)
 
 
-def render(ops, binder=None):
-    r = '$'
+def render(ops, binder=None, root='$'):
+    r = root
     for a in ops:
         r = render_op(r, a)
     if binder is not None:
